@@ -295,6 +295,22 @@ fn typed_record(rng: &mut Rng) -> Vec<u8> {
             rd.extend((data.len() as u16).to_be_bytes());
             rd.extend(data);
         }
+        2 => {
+            // boundary values of accessor computations: DNSKEY / CDNSKEY by
+            // algorithm and key length, DS / CDS by digest type and length
+            if rng.chance(1, 2) {
+                t = if rng.chance(1, 2) { 48 } else { 60 };
+                let alg = *rng.pick(&[0u8, 1, 1, 1, 5, 8, 13, 15, 253]);
+                let n = *rng.pick(&[0usize, 1, 2, 3, 4, 5, 64, 260]);
+                rd = vec![*rng.pick(&[0u8, 1]), *rng.pick(&[0u8, 1, 128]), 3, alg];
+                rd.extend(rng.bytes(n));
+            } else {
+                t = if rng.chance(1, 2) { 43 } else { 59 };
+                let n = *rng.pick(&[0usize, 1, 19, 20, 21, 32, 48]);
+                rd = vec![0xff, 0xff, 8, *rng.pick(&[0u8, 1, 2, 4])];
+                rd.extend(rng.bytes(n));
+            }
+        }
         _ => {}
     }
     for _ in 0..rng.below(3) {
@@ -385,6 +401,14 @@ fn main() {
     }
     for t in [255usize, 256, 257, 511, 512] {
         forced.push(far_pointer(t, *rng.pick(&[0usize, 5, 13])));
+    }
+    // pointer chains in the middle of a name (2 and 3 hops through bare pointers)
+    for (pt, pt2) in [(12u8, 19u8), (19, 35), (19, 39), (12, 39)] {
+        let mut m = vec![0x12, 0x34, 0x80, 0, 0, 1, 0, 2, 0, 0, 0, 0, 1, b'a', 0, 0, 1, 0, 1];
+        m.extend([0xC0, 12, 0, 1, 0, 1, 0, 0, 0, 60, 0, 4, 1, 2, 3, 4]);
+        m.extend([3, b'w', b'w', b'w', 0xC0, pt, 0, 5, 0, 1, 0, 0, 0, 60, 0, 8]);
+        m.extend([3, b'f', b't', b'p', 1, b'x', 0xC0, pt2]);
+        forced.push(m);
     }
     let full = full_sections();
     for k in 12..=full.len() {
